@@ -653,7 +653,8 @@ func TestVerifC06(t *testing.T) {
 			}
 			return
 		}
-		judge := func(what string, got, want c06Acts, h, hb uint64) {
+		// [allowed]: contracts that may be acted on without being required (nil = none)
+		judge := func(what string, got, want c06Acts, allowed map[int]bool, h, hb uint64) {
 			for k := 0; k < 7; k++ {
 				g, w := map[int]bool{}, map[int]bool{}
 				for _, i := range got.l[k] {
@@ -663,7 +664,7 @@ func TestVerifC06(t *testing.T) {
 					w[i] = true
 				}
 				for i := range g {
-					if !w[i] {
+					if !w[i] && !(k == 2 && allowed[i]) {
 						sig := what + c06Kinds[k] + "-unrequired-contract"
 						if k == 3 && api2[i].Status == contracts.V2ContractStatusRejected {
 							sig = what + "rejected-v2-contract-rebroadcast"
@@ -827,7 +828,7 @@ func TestVerifC06(t *testing.T) {
 			} else {
 				em.Step(fmt.Sprintf("Actions %d %d", h, hb), "OActs (Ok "+got.coq()+")")
 				em.Count("actions:ok")
-				judge("", got, expect(h, hb), h, hb)
+				judge("", got, expect(h, hb), nil, h, hb)
 				nontrivial = nontrivial || got.nonEmpty()
 				for k := 0; k < 7; k++ {
 					if len(got.l[k]) > 0 {
@@ -847,16 +848,18 @@ func TestVerifC06(t *testing.T) {
 					// configured buffer; a v1 proof that does not benefit the host may be skipped
 					want := expect(h, h+buf)
 					var w2 []int
+					optional := map[int]bool{}
 					for _, i := range want.l[2] {
 						c := api1[i]
 						if c.Revision.MissedHostPayout().Cmp(c.Revision.ValidHostPayout()) < 0 {
 							w2 = append(w2, i)
 						} else {
-							em.Count("process:no-benefit-proof-skipped")
+							optional[i] = true // the property asks for it, the host may save the fee
+							em.Count("process:no-benefit-proof")
 						}
 					}
 					want.l[2] = w2
-					judge("process-", pg, want, h, h+buf)
+					judge("process-", pg, want, optional, h, h+buf)
 				}
 			}
 		}
